@@ -76,7 +76,7 @@ package pdf
 //@ pred apos(s *scanner) = s.filePos + s.pos
 
 //@ func (*scanner).refill (s) (err)
-//@   tags C01 C04 C05 C19 C20
+//@   tags C01 C02 C04 C05 C19 C20
 //@   requires R(s)
 //@   assigns s.filePos, s.pos, s.used, s.err, elems(s.buf), s.src.rdpos
 //@   ensures R(s)
@@ -95,7 +95,7 @@ package pdf
 //@ pred avail(s *scanner) = len(s.src.stream) - (s.filePos + s.pos - s.P0)
 
 //@ func (*scanner).PeekN (s, n) (view, err)
-//@   tags C01 C04 C05 C19 C20
+//@   tags C01 C02 C04 C05 C19 C20
 //@   requires R(s) && 0 <= n && n <= 1024
 //@   assigns s.filePos, s.pos, s.used, s.err, elems(s.buf), s.src.rdpos
 //@   ensures R(s) && scanFrame(s)
@@ -106,7 +106,7 @@ package pdf
 //@   ensures len(view) < n && s.src.fails ==> err != nil
 
 //@ func (*scanner).ReadByte (s) (c, err)
-//@   tags C01 C04 C05 C19 C20
+//@   tags C01 C02 C04 C05 C19 C20
 //@   requires R(s)
 //@   assigns s.filePos, s.pos, s.used, s.err, elems(s.buf), s.src.rdpos
 //@   ensures R(s) && scanFrame(s)
